@@ -1314,6 +1314,15 @@ impl World {
                 true
             }
             Action::CrashServer { .. } => unreachable!(),
+            Action::AutoallocTick => {
+                let Some(inc) = &mut self.inc else { return false };
+                if self.live_queues.is_empty() {
+                    return false;
+                }
+                // the real scheduling pass; submissions are refused by the null batch system
+                let _ = self.rt.block_on(inc.autoalloc.scheduling_tick());
+                true
+            }
             Action::QueueEvent { create, id } => {
                 let Some(inc) = &mut self.inc else { return false };
                 if *create {
@@ -1321,12 +1330,14 @@ impl World {
                     // AllocationQueueCreated event)
                     let params = hyperqueue::server::autoalloc::QueueParameters {
                         manager: hyperqueue::common::manager::info::ManagerType::Slurm,
-                        max_workers_per_alloc: 1,
-                        backlog: 1,
-                        timelimit: Duration::from_secs(3600),
+                        // (parameters vary with the number of queues created so far; they only
+                        // matter for the worker query of `AutoallocTick`)
+                        max_workers_per_alloc: [1u32, 2, 4][(self.queue_next_id % 3) as usize],
+                        backlog: 1 + (self.queue_next_id % 2) * 2,
+                        timelimit: Duration::from_secs([3600u64, 20, 600][(self.queue_next_id % 3) as usize]),
                         name: None,
                         max_worker_count: None,
-                        min_utilization: 0.0,
+                        min_utilization: if self.queue_next_id % 4 == 3 { 0.5 } else { 0.0 },
                         additional_args: Vec::new(),
                         worker_start_cmd: None,
                         worker_stop_cmd: None,
